@@ -33,6 +33,21 @@ open Fp Fp.Expr
 
 /-! ## the operator patterns -/
 
+/-- classification of the (upper-cased) letters of a dotted word -/
+inductive DC where
+  | logical | rel (i : Nat) | not | and | or | eqv | neqv | other
+deriving DecidableEq, Repr
+
+def dotClass (w : Str) : DC :=
+  if w == ['T','R','U','E'] || w == ['F','A','L','S','E'] then .logical
+  else if w == ['E','Q'] then .rel 0 else if w == ['N','E'] then .rel 1
+  else if w == ['L','T'] then .rel 2 else if w == ['L','E'] then .rel 3
+  else if w == ['G','T'] then .rel 4 else if w == ['G','E'] then .rel 5
+  else if w == ['N','O','T'] then .not else if w == ['A','N','D'] then .and
+  else if w == ['O','R'] then .or else if w == ['E','Q','V'] then .eqv
+  else if w == ['N','E','Q','V'] then .neqv
+  else .other
+
 /-- the operator patterns of pattern_tools.py used by the expression classes -/
 inductive Pat where
   | power | mult | add | concat | rel | not | and | or | equiv | defined
@@ -41,6 +56,17 @@ deriving DecidableEq, Repr
 def allPats : List Pat := [.power, .mult, .add, .concat, .rel, .not, .and, .or, .equiv, .defined]
 
 def dropSp (s : Str) : Str := s.dropWhile isSpace
+
+/-- which dotted words the regular expression of a pattern spells -/
+def DC.inPat : DC → Pat → Bool
+  | _, .defined => true
+  | .rel _, .rel => true
+  | .not, .not => true
+  | .and, .and => true
+  | .or, .or => true
+  | .eqv, .equiv => true
+  | .neqv, .equiv => true
+  | _, _ => false
 
 /-- `[.]\s*[A-Z]+\s*[.]` (re.I) at the head of `s`: the letters upper-cased and the length of the
 match. Blanks, letters and `.` are disjoint classes, so the greedy match is the only one. -/
@@ -55,17 +81,10 @@ def dotWord : Str → Option (Str × Nat)
     | _ => none
   | _ => none
 
-def relWords : List Str := [['E','Q'], ['N','E'], ['L','T'], ['L','E'], ['G','T'], ['G','E']]
-def equivWords : List Str := [['E','Q','V'], ['N','E','Q','V']]
-def notWord : Str := ['N','O','T']
-def andWord : Str := ['A','N','D']
-def orWord : Str := ['O','R']
-def logicalWords : List Str := [['T','R','U','E'], ['F','A','L','S','E']]
-
-/-- `[.]\s*W\s*[.]` for the words `ws` -/
-def dotIn (ws : List Str) (s : Str) : Option Nat :=
+/-- `[.]\s*W\s*[.]` for the words `W` of pattern `q` -/
+def dotIn (q : Pat) (s : Str) : Option Nat :=
   match dotWord s with
-  | some (w, n) => if ws.contains w then some n else none
+  | some (w, n) => if (dotClass w).inPat q then some n else none
   | none => none
 
 def headIs (s : Str) (c : Char) : Bool :=
@@ -102,7 +121,7 @@ def matchAt (p : Pat) (prev : Option Char) (s : Str) : Option Nat :=
     | _ => none
   | .rel =>                                     -- [.]\s*EQ\s*[.]|…|[=]{2}|/[=]|[<][=]|[<]|[>][=]|[>]
     match s with
-    | '.' :: _ => dotIn relWords s
+    | '.' :: _ => dotIn .rel s
     | '=' :: '=' :: _ => some 2
     | '/' :: '=' :: _ => some 2
     | '<' :: '=' :: _ => some 2
@@ -110,11 +129,11 @@ def matchAt (p : Pat) (prev : Option Char) (s : Str) : Option Nat :=
     | '>' :: '=' :: _ => some 2
     | '>' :: _ => some 1
     | _ => none
-  | .not => dotIn [notWord] s
-  | .and => dotIn [andWord] s
-  | .or => dotIn [orWord] s
-  | .equiv => dotIn equivWords s
-  | .defined => (dotWord s).map (·.2)
+  | .not => dotIn .not s
+  | .and => dotIn .and s
+  | .or => dotIn .or s
+  | .equiv => dotIn .equiv s
+  | .defined => dotIn .defined s
 
 /-- `non_defined_binary_op.match(s)` (prefix match at position 0): some intrinsic operator or a
 logical literal starts the string. (The optional kind suffix of the literal cannot change the
@@ -122,7 +141,9 @@ yes/no answer.) -/
 def nonDefinedMatch (s : Str) : Bool :=
   [Pat.power, .mult, .add, .concat, .rel, .not, .and, .or, .equiv].any
       (fun q => (matchAt q none s).isSome)
-    || (dotIn logicalWords s).isSome
+    || (match dotWord s with
+        | some (w, _) => dotClass w == .logical
+        | none => false)
 
 /-! ## `re.split` with one capturing group -/
 
@@ -308,12 +329,7 @@ def segs (s : Str) : List Seg := segsF (s.length + 1) s []
 
 /-- the patterns that must match an operator word (exactly, at its first character) -/
 def inCls : TK → Pat → Bool
-  | .dotted _, .defined => true
-  | .dotted w, .rel => relWords.contains w
-  | .dotted w, .not => w == notWord
-  | .dotted w, .and => w == andWord
-  | .dotted w, .or => w == orWord
-  | .dotted w, .equiv => equivWords.contains w
+  | .dotted w, q => (dotClass w).inPat q
   | .pow, .power => true
   | .mul, .mult => true
   | .div, .mult => true
@@ -334,7 +350,8 @@ def lastOr (prev : Option Char) (s : Str) : Option Char :=
   | some c => some c
   | none => prev
 
-def reservedWords : List Str := relWords ++ [notWord, andWord, orWord] ++ equivWords ++ logicalWords
+def startsBlank (s : Str) : Bool := match s with | c :: _ => isSpace c | [] => false
+def endsBlank (s : Str) : Bool := match s.getLast? with | some c => isSpace c | none => false
 
 /-- The one tolerated overlap: `mult_op` (`(?<![/])[/](?![/])`) matches the `/` of `/=`. -/
 def tolerated (k : TK) (q : Pat) : Bool := k == .ne && q == .mult
@@ -351,35 +368,33 @@ def segOK (prev : Option Char) (sg : Seg) (after : Str) : Bool :=
       else if tolerated k q then true
       else noHit q prev s after) &&
     (match k with
-     | .dotted w => nonDefinedMatch (upper s) == reservedWords.contains w
-     | _ => true)
+     | .dotted w => nonDefinedMatch (upper (strip s)) == (dotClass w != .other)
+     | _ => true) &&
+    (match tokAt s with
+     | some (k', _) => k' == k
+     | none => false) &&
+    !startsBlank s && !endsBlank s
 
 def checkSegs (prev : Option Char) : List Seg → Bool
   | [] => true
   | sg :: rest => segOK prev sg (flat rest) && checkSegs (lastOr prev sg.text) rest
 
-def startsBlank (s : Str) : Bool := match s with | c :: _ => isSpace c | [] => false
-def endsBlank (s : Str) : Bool := match s.getLast? with | some c => isSpace c | none => false
-
 /-- injective numbering of operand texts -/
 def idOf (s : Str) : Nat := s.foldl (fun n c => n * 1114112 + (c.toNat + 1)) 0
-
-def relIdx (w : Str) : Nat :=
-  if w == ['E','Q'] then 0 else if w == ['N','E'] then 1 else if w == ['L','T'] then 2
-  else if w == ['L','E'] then 3 else if w == ['G','T'] then 4 else 5
 
 /-- the token of an operator word; `g` = glued to the previous token -/
 def tokOf (k : TK) (g : Bool) : T :=
   match k with
   | .dotted w =>
-    if logicalWords.contains w then .atom (idOf w) true g
-    else if relWords.contains w then .op (.rel (relIdx w) true) g
-    else if w == notWord then .op .not g
-    else if w == andWord then .op .and g
-    else if w == orWord then .op .or g
-    else if w == ['E','Q','V'] then .op .eqv g
-    else if w == ['N','E','Q','V'] then .op .neqv g
-    else .op (.dot (numOf w)) g
+    match dotClass w with
+    | .logical => .atom (idOf w) true g
+    | .rel i => .op (.rel i true) g
+    | .not => .op .not g
+    | .and => .op .and g
+    | .or => .op .or g
+    | .eqv => .op .eqv g
+    | .neqv => .op .neqv g
+    | .other => .op (.dot (numOf w)) g
   | .pow => .op .pow g | .mul => .op .mul g | .div => .op .div g | .concat => .op .concat g
   | .plus => .op .plus g | .minus => .op .minus g
   | .eq => .op (.rel 0 false) g | .ne => .op (.rel 1 false) g | .lt => .op (.rel 2 false) g
